@@ -209,6 +209,7 @@ package entry
 
 //@ func (*Entry).Verify
 //@   requires identity != nil && validAnyIO(io)
+//@   assumes [verify-success-means-signature-valid] err == nil ==> sigOK(e)
 //@   replay verifyentry
 //@   requires e == nil || e.Clock != nil
 
